@@ -201,6 +201,10 @@ pub struct Obs {
     pub in_progress: bool,
     pub buf: Vec<u8>,
     pub ty: Option<u8>,
+    /// digest of the parser's derived Debug text: whatever other state the object carries (a cache, a counter, a
+    /// remembered header field) is part of the explored state, so two histories are merged only if the whole
+    /// object looks the same
+    pub hidden: u64,
 }
 
 /// Apply one operation to the real parser. `region` says which buffer an Ok result is expected
@@ -247,11 +251,13 @@ pub fn impl_step(p: &mut TlsRecordsParser, op: &Op, alpha: &[Rec], region: Regio
             }
         }
     };
+    let hidden = if p.verif_defrag_buffer().len() <= 4096 { vcommon::report::fnv(0, format!("{:?}", p).as_bytes()) } else { 0 };
     Obs {
         got,
         in_progress: p.defrag_in_progress(),
         buf: p.verif_defrag_buffer().to_vec(),
         ty: p.verif_current_record_type().map(|t| t.0),
+        hidden,
     }
 }
 
